@@ -26,12 +26,18 @@ Theorem C13_stale_timer : forall tm w, cw_timer w <> Some tm -> cw_fire tm w = (
 Proof. exact stale_fire. Qed.
 Print Assumptions C13_stale_timer.
 
-(* perChannelWriter, all schedules (Add = getWriter ; channelWriter.Add, any number of threads, timers,
-   delWriter, Close).  After delWriter(ch, false) the writer that served ch never calls flushFn again,
-   PROVIDED no perChannelWriter.Add call holding that writer is in flight at that moment. *)
+(* a closed channelWriter drops what is added to it *)
+Theorem C13_closed_add_dropped : forall c tm w x, cw_closed w = true -> cw_add c tm w x = (w, None, false).
+Proof. exact add_closed. Qed.
+Print Assumptions C13_closed_add_dropped.
+
+(* perChannelWriter, ALL schedules (Add = getWriter ; channelWriter.Add by any number of threads, timers,
+   delWriter, Close).  "Nothing buffered for a channel is delivered after the subscription ended":
+   after delWriter(ch, false) the writer that served ch never calls flushFn again -- also when a
+   perChannelWriter.Add call that had obtained it completes afterwards. *)
 Theorem C13_nothing_after_unsubscribe : forall cf sched1 s1 ch i s2 sched2 s3,
   prun cf p_init sched1 = Some s1 ->
-  lookupN (p_map s1) ch = Some i -> referenced s1 i = false ->
+  lookupN (p_map s1) ch = Some i ->
   pstep cf s1 (PDel ch false) = Some s2 -> prun cf s2 sched2 = Some s3 ->
   out_of i (p_out s3) = out_of i (p_out s1).
 Proof. exact nothing_after_unsubscribe. Qed.
@@ -44,18 +50,23 @@ Theorem C13_close_clears : forall cf sched s s',
 Proof. exact close_clears. Qed.
 Print Assumptions C13_close_clears.
 
-(* The proviso is needed: WITHOUT it the end-to-end clause "nothing buffered for a channel is delivered
-   after the subscription ended or the connection closed without flush" is FALSE for this code.
-   Schedule: getWriter(ch) by an Add in flight; delWriter(ch,false); the Add completes on the orphaned
-   writer (buffers x, arms a timer); Close(false) does not reach the orphan; its timer fires: x is
-   flushed after the connection was closed without flush. *)
+(* What the closed-flag fixes (commit "channelWriter drops items added after it was closed"): for the code
+   WITHOUT the `if w.closed { return }` guard (guard = false) the clause is FALSE.  Schedule: getWriter(ch)
+   by an Add in flight; delWriter(ch,false); the Add completes on the orphaned writer (buffers x, arms a
+   timer); Close(false) does not reach the orphan; its timer fires: x is flushed after the connection was
+   closed without flush.  With the guard the same schedule emits nothing. *)
 Definition c13_cfg (_ : N) := mkBcfg 10 true false.
 Definition c13_x := mkCI 1 0 true.
-Theorem C13_orphan_refuted :
-  exists s, prun c13_cfg p_init [PGet 0 7%N; PDel 7%N false; PAdd 0 c13_x; PClose false; PFire 1] = Some s /\
-            p_out s = [(7%N, 0, [c13_x])].
+Definition c13_sched := [PGet 0 7%N; PDel 7%N false; PAdd 0 c13_x; PClose false; PFire 1].
+Theorem C13_orphan_prefix_refuted :
+  exists s, prun_gen false c13_cfg p_init c13_sched = Some s /\ p_out s = [(7%N, 0, [c13_x])].
 Proof. eexists. split; vm_compute; reflexivity. Qed.
-Print Assumptions C13_orphan_refuted.
+Print Assumptions C13_orphan_prefix_refuted.
+
+Example C13_orphan_fixed :
+  prun c13_cfg p_init (firstn 4 c13_sched) <> None /\
+  forall s, prun c13_cfg p_init (firstn 4 c13_sched) = Some s -> p_out s = [] /\ p_timers s = [].
+Proof. split; [vm_compute; discriminate|]. vm_compute. intros s [= <-]. auto. Qed.
 
 (* ---- non-vacuity ---- *)
 Definition c13_latest := mkBcfg 3 true true.
